@@ -168,6 +168,8 @@ def realise(gtype, t0, t1, f0, f1):
             return [[(t0 + t1) / 2, f1], [t0, f0], [t1, (f0 + f1) / 2]]  # starts in the middle, doubles back to its earliest vertex
         return [[t0, f1], [(t0 + t1) / 2, f0], [t1, (f0 + f1) / 2]]
     if gtype == "Polygon":
+        if t0 < t1 and f0 < f1 and int(t0) % 2 == 1:
+            return [[[t0, f0], [t1, f1], [t1, f0], [t0, f1]]]  # a self-crossing outline (bow tie): its extent is that of its vertices
         return [[[t0, f0], [t1, f0], [(t0 + t1) / 2, f1]]]
     if gtype == "MultiPoint":
         return [[t1, f0], [t0, f1]]
@@ -243,7 +245,7 @@ MINOV = [0, 0.5, 1, 3]
 REALS = ["TimeStamp", "Point", "MultiPoint", "TimeInterval", "BoundingBox", "LineString", "Polygon", "MultiLineString",
          # a multi-point whose two points lie at the two ends of the extent (nothing in between), a line whose earliest vertex is an
          # interior one, a multi-polygon of two far-apart parts: the extent is that of the whole geometry
-         "MultiPoint:ends", "LineString:back", "MultiPolygon:ends"]
+         "MultiPoint:ends", "LineString:back", "MultiPolygon:ends", "Polygon:bowtie"]
 
 
 def realise_extent(kind, a, b):
@@ -251,6 +253,8 @@ def realise_extent(kind, a, b):
         return [[a, 1000], [b, 3000]] if a < b else None
     if kind == "LineString:back":
         return [[(a + b) / 2, 500], [a, 1000], [b, 1500]] if a < b else None
+    if kind == "Polygon:bowtie":
+        return [[[a, 500], [b, 1500], [b, 500], [a, 1500]]] if a < b else None
     if kind == "MultiPolygon:ends":
         w = (b - a) / 8
         return [[[[a, 500], [a + w, 500], [a, 1500]]], [[[b - w, 500], [b, 500], [b, 1500]]]] if a < b else None
